@@ -6,7 +6,7 @@ import e2e_streams as ES
 
 MODULE = "Props.C11"
 THEOREMS = ["C11_uniform_in_range", "C11_null_range", "C11_inverse_monotone", "C11_round_half", "C11_string_index_range",
-            "C11_string_result", "commonPrefix_prefix", "drawInt_ok", "commonPrefix_between", "C11_mask_prefix_covers_range"]
+            "C11_string_result", "commonPrefix_prefix", "drawInt_ok", "commonPrefix_between", "C11_mask_prefix_covers_range", "valueMapOf_sorted", "C11_mask_prefix_fitted"]
 PARTIAL = ["decoding to original units: proved that the affine inverse is monotone and rounding moves by <= 1/2 unit; that MinMaxScaler's "
            "coefficients and Python's round(x, p) are what the model takes them to be is trusted and validated by S-micro (cells exact)",
            "the mask prefix theorem (C11_mask_prefix_covers_range) assumes the value map is sorted by code points; the oracle checks that on every "
@@ -91,6 +91,7 @@ def run(ctx, built):
     ES.stream_micro(ctx, built, ctx.scale(30, 400), oracle(ctx))
     ES.stream_micro_synth(ctx, built, ctx.scale(250, 4000), oracle(ctx))
     ES.stream_micro_refit(ctx, built, ctx.scale(10, 120), oracle(ctx))
+    ES.stream_sample1(ctx, built, ctx.scale(10, 120), name="S-sampleRaw", raw=True)
 
 
 def search(ctx, seeds):
